@@ -182,7 +182,7 @@ fn body17(c: &Ctx) {
         assert_unchanged_except(a, b, F_ALT | F_ALT_SRC | F_SQUAWK | F_BOOK);
     }
 }
-// @harness name=c10_bds17_gate_df21 props=C10,C11 tier=quick cap=2400 mem=24
+// @harness name=c10_bds17_gate_df21 props=C10,C11,C01 tier=quick cap=2400 mem=24
 // BDS 1,7 record, BDS 3,0 flag, and "gate closed => only altitude/squawk change", DF21
 commb!(c10_bds17_gate_df21, 21, body17);
 // @harness name=c10_bds17_gate_df20 props=C10,C11:thorough tier=thorough cap=2400 mem=24
